@@ -27,8 +27,9 @@ TRUSTED = ["correspondence harness props/C16.py, props/_c16_sched.py (sys.settra
 ASSUMPTIONS = ["granularity is the source line (as the property states); byte-code level pre-emption inside one line and "
                "free-threaded builds are outside the model",
                "CPython dict / attribute / RLock / generator-based context manager semantics are modelled, not verified",
-               "ppid() while /proc/<pid>/stat is unreadable, a source reappearing after the process vanished and "
-               "NotImplementedError inside as_dict are outside the claim (reported as skipped / no-spec)"]
+               "a source reappearing after the process vanished, a single file of a live process vanishing and "
+               "NotImplementedError inside as_dict are outside the claim (spec None / skipped); ppid() is covered "
+               "everywhere else, including an unreadable stat and the sticky Process._gone"]
 EXHAUSTIVE = {"quick": "",
               "thorough": "all schedules of {enter;call;exit;enter;call;exit} || {call;call} || {source change} of the form "
                           "owner a steps, caller b steps, change, owner c steps, caller 4 steps, rest (a<=26, b<=5, c<=26 in steps "
@@ -143,8 +144,6 @@ def _gen_hist(rng, n):
             ops.append(["pid"])
         else:
             m = rng.choice(MNAMES)
-            if m == "ppid" and (st["stat"] == ["D"] or (dead and rng.random() < 0.8)):
-                m = "cpu_num"   # ppid() with stat unreadable / process gone: outside the specification's domain
             ops.append(["call", m])
     return init, ops
 
@@ -226,7 +225,6 @@ def gen_cases(rng, tier):
         for _ in range(nplain):
             progs.append([["call", rng.choice(MNAMES)] for _ in range(rng.randint(1, 3))])
         progs.append(_env_prog(rng, rng.randint(0, 3)))
-        progs = _fix_ppid(progs)
         total = sum(8 * len(p) for p in progs)
         cases.append(_sched_case(progs, _rand_sched(rng, len(progs), total, rng.choice([1, 2, 4, 9])), "sched-random"))
     # directed: a caller pre-empted between its lookup, its read and its store while the owner leaves / re-enters
@@ -258,8 +256,7 @@ def gen_cases(rng, tier):
                 stubs[nme] = ["exc", rng.choice(["NoSuchProcess", "NotImplementedError"])]
             elif r < 0.3:
                 stubs[nme] = ["val", rng.randint(0, 9)]
-        # stat stays readable: ppid() with an unreadable stat is outside the model
-        init = [["A", rng.randint(1, 5)]] + [["A", rng.randint(1, 5)] if rng.random() < 0.8 else ["D"] for _ in SRC[1:]]
+        init = [["A", rng.randint(1, 5)] if rng.random() < 0.8 else ["D"] for _ in SRC]
         pre = rng.choice([[], [], [], [["enter"]], [["enter"], ["call", "cpu_num"]], [["call", "uids"]], [["gone"]]])
         c = {"kind": "asdict", "cls": "asdict", "init": init, "pre": pre, "stubs": stubs}
         if k < 0.12:
@@ -418,7 +415,7 @@ def judge(case, coq, impl):
                 if s[1] is not None and r[1] != s[1]:
                     return Verdict("violation", "call #%d opens [stat,status,smaps,statm] %r times, the property allows %r" % (i, r[1], s[1]))
         if coq["seq"] != coq["model"]:
-            return Verdict("corr", "the sequential reading and the interleaving semantics run alone disagree")
+            return Verdict("corr", "the sequential reading and the interleaving semantics run alone disagree (contradicts C16_seq_is_lts_alone)")
         if impl != coq["model"]:
             return Verdict("corr", "impl != model")
         return Verdict("ok")
@@ -729,21 +726,27 @@ def impl_run(case, coq, env):
 
 
 MANIFEST = {
-    "text": "Theorems (Coq 8.16, all closed under the global context; coq/Properties/C16.v). One thread, every history of "
-            "enter/exit/nested enter/exception in the body/call/source change: the sequential reading of memoize_when_activated + "
-            "oneshot() + the Linux memoized readers produces, call by call, the answers and per-call read counts of a ghost machine "
-            "written from the property text (first successful read in the block is kept, each of stat/status/smaps read at most once "
-            "per block, forgotten at the outermost exit whether normal or exceptional, nested blocks only counted); once no block is "
-            "open both _cache attributes are gone and calls read current data; nested enter+exit changes nothing but the lock count; "
-            "as_dict = TypeError/ValueError with the state untouched, else one block around the requested calls with ad_value for "
-            "AccessDenied/ZombieProcess, NoSuchProcess propagating, exactly the requested keys (checked against the generated table "
-            "of _as_dict_attrnames). Threads, every interleaving at source-line granularity, any number of threads and programs, "
-            "no bound on length (invariants over reachable configurations of lts_step): no AttributeError/KeyError of the cache "
-            "plumbing reaches a caller (refuted for the pre-issue-1948 wrapper); every value held by any cache dict was read after "
-            "that dict was created (refuted for the wrapper before commit 7b727b3, witness schedule replayed on the real code); a "
-            "returned value was read during the call or inside a block overlapping it; cache pointers never dangle; whoever creates/"
-            "removes dicts holds Process._lock. The model is tied to the code by running the real psutil.Process over a fake /proc, "
-            "single-threaded and under a deterministic sys.settrace line scheduler, against model and specification.",
+    "text": "Theorems (Coq 8.16, 20, all closed under the global context; coq/Properties/C16.v). One thread, every history of "
+            "enter/exit/nested enter/exception in the body/call/source change (new content, denied, process gone): the model "
+            "of memoize_when_activated + oneshot() + the Linux memoized readers produces, call by call, the answers and per-call "
+            "read counts of a ghost machine written from the property text (first successful read in the block is kept, "
+            "forgotten at the outermost exit whether normal or exceptional, nested blocks only counted) -- proved for the "
+            "sequential reading and, through a simulation theorem (the run of lts_step with one thread terminates, is unique "
+            "and equals the sequential reading up to ghost step numbers), for the interleaving semantics itself; ppid() with "
+            "its sticky PID-gone pre-check is inside the domain, the excluded class (a source changing after the process "
+            "vanished, a single file vanishing) is decided by the machine; the shared sources stat/status/smaps are read at "
+            "most once per block whatever is called, statm is per method (kept by memory_info(), re-read by every "
+            "memory_full_info()); once no block is open both _cache attributes are gone and calls read current data; nested "
+            "enter+exit changes nothing but the lock count; as_dict = TypeError/ValueError with the state untouched, else one "
+            "block around the requested calls with ad_value for AccessDenied/ZombieProcess, NoSuchProcess propagating, exactly "
+            "the requested keys (checked against the generated table of _as_dict_attrnames). Threads, every interleaving at "
+            "source-line granularity, any number of threads and programs, no bound on length: no AttributeError/KeyError of "
+            "the cache plumbing reaches a caller (refuted for the pre-issue-1948 wrapper); every value held by any cache dict "
+            "was read after that dict was created (refuted for the wrapper before commit 7b727b3, witness schedule replayed on "
+            "the real code); a returned value was read during the call or inside a block overlapping it; cache pointers never "
+            "dangle; whoever creates/removes dicts holds Process._lock. The model is tied to the code by running the real "
+            "psutil.Process over a fake /proc, single-threaded and under a deterministic sys.settrace line scheduler, against "
+            "model and specification.",
     "note": "Trusted: Coq kernel + vm_compute; hand-written model coq/C16/Model.v (tied by the correspondence run only); harness, "
             "scheduler (pause points = the model's steps), fake /proc, read counting by frame inspection; CPython dict/attribute/"
             "RLock/generator semantics. Granularity is the source line; byte-code level pre-emption and free-threaded builds are "
